@@ -1401,6 +1401,9 @@ def plan_c03(tier, seed):
                               "%s with all %d optional members%s present: canonical key order at every level" % (tag, len(opts), " (incl. feature-gated)" if sfx else "")),
                 configs="all")
             pairs = list(itertools.combinations(opts, 2))
+            if sfx:   # only pairs that involve a feature-gated member (the others exist already)
+                free = {f.rust for f in opts_all if f.feature is None}
+                pairs = [(a, b) for a, b in pairs if not (a in free and b in free)]
             for a, b in pick(pairs, tier, seed, 6 if len(pairs) > 6 else len(pairs)):
                 var = Variation(present={schema.name: [a, b]}, default_present="none", intclass=0, maxlen=6, text="ascii", seed=seed)
                 add(value_harness("c03_%s_pair_%s__%s" % (tag, a, b), "C03", schema, var, "%s with optional members %s and %s" % (tag, a, b)))
